@@ -74,6 +74,28 @@ def free_vars(exprs):
     return out
 
 
+def _walk(e):
+    seen = set()
+    stack = [e]
+    while stack:
+        t = stack.pop()
+        i = t.get_id()
+        if i in seen:
+            continue
+        seen.add(i)
+        yield t
+        if z3.is_app(t):
+            stack.extend(t.children())
+
+
+def _mentions_real(e):
+    return any(z3.is_real(t) for t in _walk(e))
+
+
+def _has_uf(e):
+    return any(z3.is_app(t) and t.decl().kind() == z3.Z3_OP_UNINTERPRETED and t.decl().arity() > 0 for t in _walk(e))
+
+
 def slice_for(assertions, goals):
     """Cone of influence: the assertions sharing (transitively) a free symbol with `goals`.
     Sound for both verdicts provided the conjunction of `assertions` alone is satisfiable."""
@@ -438,9 +460,15 @@ def check(assertions, timeout=30.0, want_model=False, solvers=None):
         STATS["nonlinear"] += 1
         fv = free_vars(assertions)
         has_int = any(z3.is_int(v) for v in fv.values())
-        body = to_smt2(assertions, logic=None if has_int else "QF_NRA")
-        if has_int:
-            body = "(set-logic ALL)\n" + body
+        has_real = any(z3.is_real(v) for v in fv.values()) or any(_mentions_real(a) for a in assertions)
+        has_uf = any(v.decl().arity() > 0 for v in [] ) or any(_has_uf(a) for a in assertions)
+        if has_int and not has_real and not has_uf:
+            logic = "QF_NIA"
+        elif not has_int and not has_uf:
+            logic = "QF_NRA"
+        else:
+            logic = "ALL"
+        body = to_smt2(assertions, logic=logic)
         res, model, who = _external(body, sorted(fv), timeout, want_model, solvers=solvers or ("z3", "cvc5"))
     dt = time.time() - t0
     STATS["seconds"] += dt
